@@ -279,6 +279,12 @@ def _worker(args):
 def _run_hyp(sub, tier, seed_value, nshards, rec, handle):
     from hypothesis import HealthCheck, Phase, Verbosity, given, seed, settings
 
+    # Bound the shrink phase (Hypothesis's own cap is 300 s); a shorter cap only makes the
+    # reported case less minimal, it never turns a pass into a failure or vice versa.
+    import hypothesis.internal.conjecture.engine as _engine
+
+    _engine.MAX_SHRINKING_SECONDS = int(os.environ.get("VERIF_SHRINK_SECONDS", "25" if tier == "quick" else "120"))
+
     total = sub.budget[tier]
     n = max(1, -(-total // nshards))
     phases = [Phase.generate] + ([Phase.shrink] if sub.shrink else [])
